@@ -80,6 +80,53 @@ MUTANTS: dict[str, dict[str, list[tuple[str, str, str]]]] = {
                            'temp = path.with_name(f\'.{path.name}.tmp\')\n        if temp.is_dir():',
                            'temp = path\n        if False:')],
     },
+    'C16': {
+        'descriptor-race': [('forml/runtime/_service/dispatch.py',
+                             'if application not in self._descriptors:  # may have been registered concurrently',
+                             'if application not in updates:')],
+        'result-matched-by-arrival-order': [('forml/runtime/_service/prediction.py',
+                                             """            if result.exception:
+                self._pending[result.id].set_exception(result.exception)
+            else:
+                self._pending[result.id].set_result(result.outcome)
+            del self._pending[result.id]""",
+                                             """            key = next(iter(self._pending))
+            if result.exception:
+                self._pending[key].set_exception(result.exception)
+            else:
+                self._pending[key].set_result(result.outcome)
+            del self._pending[key]""")],
+        'task-id-reused': [('forml/runtime/_service/prediction.py', '        self._index += 1\n',
+                            '        self._index = (self._index + 1) % 3\n')],
+        'pending-registered-after-put': [('forml/runtime/_service/prediction.py',
+                                          """        self._pending[self._index] = outcome
+        self._tasks.put(Task(self._index, entry))""",
+                                          """        self._tasks.put(Task(self._index, entry))
+        self._pending[self._index] = outcome""")],
+        'dealer-cache-keyed-by-project': [('forml/runtime/_service/dispatch.py',
+                                           """        if instance not in self._cache:
+            LOGGER.info('Spawning new prediction executor')""",
+                                           """        key = instance
+        instance = str(instance.project.source.extract.apply)
+        if instance not in self._cache:
+            LOGGER.info('Spawning new prediction executor')
+            instance = key"""),
+                                          ('forml/runtime/_service/dispatch.py',
+                                           """            self._cache[instance] = executor
+        outcome = self._cache[instance].apply(entry)""",
+                                           """            self._cache[str(instance.project.source.extract.apply)] = executor
+        outcome = self._cache[str(key.project.source.extract.apply)].apply(entry)""")],
+        'worker-swallows-platform-error': [('forml/runtime/_service/prediction.py',
+                                            """                except forml.AnyError as err:
+                    self._results.put_nowait(task.failure(err))""",
+                                            """                except forml.AnyError as err:
+                    LOGGER.warning('Task failed: %s', err)""")],
+        'worker-dies-on-platform-error': [('forml/runtime/_service/prediction.py',
+                                           """                except forml.AnyError as err:
+                    self._results.put_nowait(task.failure(err))
+                except Exception as err:""",
+                                           """                except Exception as err:""")],
+    },
 }
 
 
